@@ -8,7 +8,13 @@ Open Scope Z_scope.
 (* the calendar round trip for EVERY year in Z (a 400-year sweep by vm_compute lifted by periodicity) *)
 Theorem C16_civil_roundtrip : forall y m d, valid_date y m d = true -> civil_from_days (days_from_civil y m d) = (y, m, d).
 Proof. exact civil_roundtrip. Qed.
-Print Assumptions C16_civil_roundtrip.
+(* ... and conversely every day number is the day count of exactly one valid date: civil_from_days and days_from_civil are mutually
+   inverse bijections between Z and the valid proleptic-Gregorian dates (sweep over the 146 097 days of one era, lifted by periodicity) *)
+Theorem C16_days_roundtrip : forall z, let '(y, m, d) := civil_from_days z in valid_date y m d = true /\ days_from_civil y m d = z.
+Proof. exact days_roundtrip. Qed.
+Theorem C16_weekday_model : forall d, (d + 7 + 3) mod 7 = (d + 3) mod 7 /\ 0 <= (d + 3) mod 7 < 7.
+Proof. exact weekday_model. Qed.
+Print Assumptions C16_civil_roundtrip. Print Assumptions C16_days_roundtrip.
 (* the millisecond conversion is exact: dividing by 86400000 and multiplying back, rounded, recovers every |M| <= 2^50 ms
    (years 1..9999 need |M| < 2^49) - over Flocq's binary64 *)
 Theorem C16_ms_exact : forall M, Z.abs M <= 2^50 -> to_i64 (fround (fmul (fdiv (of_int M) fD) fD)) = M.
